@@ -163,6 +163,14 @@ def theorem_family(ew, enc, names):
     # --- alternative encodings selected by mod_mr() / mod_rm()
     if enc in (0x85, 0x88) and mode == 64 and optl == ["modmr"] and k == "-" and sig == "RRR" and inn("xrvm"):
         return "xop_rvm_modmr"
+    if mode == 64 and optl == ["long"] and k == "-":          # dispatch_long / dispatch_long_mi + legacy_emit_lowopt
+        if enc == 0x19 and sig == "RI" and regs[0] in ("gpw", "gpd", "gpq") and (regs[0] != "gpq" or -2 ** 31 <= s64(imms[0]) < 2 ** 31):
+            return "arith_imm_long"
+        if enc == 0x19 and sig == "MI" and af and int(mems[0].split(":")[1]) in (1, 2, 4, 8) and \
+                (int(mems[0].split(":")[1]) != 8 or -2 ** 31 <= s64(imms[0]) < 2 ** 31):
+            return "arith_mi_long"
+        if enc == 0x2C and sig == "RI" and regs[0] == "gpq":
+            return "mov_ri_long"
     if enc in (0x19, 0x2C) and mode == 64 and optl == ["modrm"] and k == "-" and sig == "RR" and regs[0] == regs[1] and regs[0] in ("gpw", "gpd", "gpq"):
         return "rr_modrm"
     # --- VEX / EVEX classes
@@ -172,6 +180,8 @@ def theorem_family(ew, enc, names):
         if len(sig) != len(want) or any(w != "X" and w != s for w, s in zip(want, sig)) or not inn(sh):
             return None
         xi = want.index("X")
+        if sig[xi] == "R" and mode == 64 and k == "-" and optl in (["evex"], ["vex3"], ["vex"]) and sh in ("rvm", "rm", "rvmi", "rmi"):
+            return "vex_reg_opt_" + optl[0]          # Props/C01FrontOpt.lean
         if sig[xi] == "R":
             if any(o not in ("z", "er", "sae", "rn", "rd", "ru", "rz") for o in optl):
                 return None
@@ -181,6 +191,8 @@ def theorem_family(ew, enc, names):
                 return None
             return "vex_reg" + ("_dec" if optl or k != "-" else "")
         if sig[xi] == "M" and mode == 64:
+            if optl == ["vex"] and k == "-":
+                optl = []                       # emitVexEvexM_vexopt: neutral
             if any(o != "z" for o in optl):
                 return None
             if bc and (sh in ("mr", "mri") or af == "abs"):
